@@ -393,6 +393,42 @@ def run(chk, prog):
                    'story_to_json_string serialises the story without measuring its nesting depth first: a story deeper '
                    'than the runtime\'s 128 levels is returned as compiled although it cannot be loaded', sjs.loc(0))
 
+    # ---------------- paths that name a weave label are rewritten when the label's container is hoisted
+    RH_ = 'C06.hoisted-label-paths-are-rewritten'
+    chk.rule(RH_, 'When the continuation containers of a labelled gather are hoisted out of it, fix_divert_paths rewrites '
+             'every path that still names the old place. It looks at a fixed list of object keys: every key under which '
+             'the emitter stores a path obtained from label / target resolution (resolve_divert_target, '
+             'resolve_choice_label, qualified_choice_labels, choice_branch) must be in that list, otherwise paths under '
+             'that key keep naming a container that no longer exists.')
+    fdp = prog.fn('emitter::fix_divert_paths')
+    if chk.anchor(RH_, 'emitter::fix_divert_paths', fdp):
+        lth = Tracer(prog, transparent=lambda cs: True, use_summaries=False)
+        SRC_ = ('resolve_divert_target', 'resolve_choice_label', 'qualified_choice_labels', 'choice_label_targets',
+                'choice_branch')
+        label_keys = {}
+        for f_ in emit_fns:
+            for bb, t in f_.calls():
+                if callee_short(t) == 'Map::insert' and len(t['args']) >= 3:
+                    ks = consts_of(tr.prov(f_, t['args'][1])) - {'promoted', '?', 'bytes'}
+                    if ks and any(any(s_ in a for s_ in SRC_) for a in lth.prov(f_, t['args'][2])):
+                        for k in ks:
+                            label_keys.setdefault(k, f_.loc(bb))
+        handled, opaque = set(), []
+        for g_ in prog.with_closures(fdp):
+            for bb, t in g_.calls():
+                if callee_short(t) in ('Map::get_mut', 'Map::get', 'Map::contains_key', 'Map::remove') and len(t['args']) > 1:
+                    at = tr.prov(g_, t['args'][1])
+                    handled |= consts_of(at) - {'promoted', '?', 'bytes'}
+                    opaque += [a for a in at if a.startswith('const:item:') or a in ('const:?', 'const:promoted')]
+        if chk.anchor(RH_, 'object keys that fix_divert_paths looks up', handled) and \
+                chk.anchor(RH_, 'keys under which the emitter stores resolved label paths', label_keys):
+            chk.floor(RH_, 'keys carrying resolved label paths', len(label_keys), 4)
+            for k, loc in sorted(label_keys.items()):
+                chk.decide(RH_, chk.key(RH_, repr(k)), k in handled, 'rewritten by fix_divert_paths',
+                           'the emitter stores resolved label paths under %r, but fix_divert_paths does not look at that '
+                           'key: when the continuation of a labelled gather is hoisted, such a path keeps naming the old '
+                           'place and resolves to nothing' % k, loc)
+
     # ---------------- list items
     RE = 'C06.list-items-resolved'
     chk.rule(RE, 'Where the emitter writes a list literal, every key it inserts into the "list" object is the qualified '
